@@ -150,15 +150,32 @@ where
     }
 
     fn datetime(&self, mut naive: NaiveDateTime) -> Self::DateTime {
-        loop {
-            if let Some(dt) = self.tz.from_local_datetime(&naive).latest() {
-                return dt;
-            }
+        if let Some(dt) = self.tz.from_local_datetime(&naive).latest() {
+            return dt;
+        }
 
+        // This local time is skipped by a time zone transition, find the first valid minute
+        // after it.
+        let dt_minute = loop {
             naive = naive
                 .checked_add_signed(TimeDelta::minutes(1))
                 .expect("no valid datetime for time zone");
-        }
+
+            if let Some(dt) = self.tz.from_local_datetime(&naive).latest() {
+                break dt;
+            }
+        };
+
+        // Some (historical) transitions are not aligned to a minute: find the first valid
+        // second.
+        (1..60)
+            .rev()
+            .find_map(|secs| {
+                self.tz
+                    .from_local_datetime(&(naive - TimeDelta::seconds(secs)))
+                    .latest()
+            })
+            .unwrap_or(dt_minute)
     }
 
     fn event_time(&self, date: NaiveDate, event: TimeEvent) -> NaiveTime {
